@@ -31,7 +31,14 @@ func RefMerge(r *sim.R) {
 	for i := 0; i < nsec; i++ {
 		s := g.Dict(1)
 		secs = append(secs, s)
-		dstIn[fmt.Sprintf("s%d", i)] = Render(s, RepGeneric, nil)
+		sec := Render(s, RepGeneric, nil).(map[string]interface{})
+		if t.Chance(1, 3, "section-refers-to-itself") {
+			// a setting of the section refers to the section: merging a source that does the same
+			// leads back into the pair of objects that is being merged
+			sec["back"] = fmt.Sprintf("${s%d}", i)
+			r.Probe("merge: a section holds a reference to itself")
+		}
+		dstIn[fmt.Sprintf("s%d", i)] = sec
 	}
 	nref := 1 + t.Choose(2, "n-refs")
 	refTarget := map[string]string{}
@@ -67,13 +74,20 @@ func RefMerge(r *sim.R) {
 		names = append(names, n)
 	}
 	sort.Strings(names)
+	selfRef := func(name string) interface{} {
+		d := Render(g.Dict(1), RepGeneric, nil).(map[string]interface{})
+		if t.Chance(1, 3, "source-object-refers-to-itself") {
+			d["back"] = "${" + name + "}"
+		}
+		return d
+	}
 	for _, n := range names {
 		if t.Chance(3, 4, "src-defines-ref") {
-			srcIn[n] = Render(g.Dict(1), RepGeneric, nil)
+			srcIn[n] = selfRef(n)
 		}
 	}
 	if t.Chance(1, 3, "src-defines-section") {
-		srcIn["s0"] = Render(g.Dict(1), RepGeneric, nil)
+		srcIn["s0"] = selfRef("s0")
 	}
 	if len(srcIn) == 0 {
 		srcIn[names[0]] = Render(g.Dict(1), RepGeneric, nil)
@@ -97,6 +111,10 @@ func RefMerge(r *sim.R) {
 		r.Tracef("Merge = %v", err)
 	}
 	if after := fp.Fingerprint(src); after != before {
+		if r.Prop != "C10" {
+			r.Note("C10", "source-untouched/Merge")
+			return
+		}
 		r.FailD("source-untouched", "Merge", map[string]string{"embed": "over-reference"}, "Merge over references changed its source: internal state differs before/after")
 	}
 	sh, serr := fp.Shared(dst, src)
@@ -105,6 +123,10 @@ func RefMerge(r *sim.R) {
 		return
 	}
 	if len(sh) > 0 {
+		if r.Prop != "C10" {
+			r.Note("C10", "share-nothing/Merge")
+			return
+		}
 		r.FailD("share-nothing", "Merge", map[string]string{"embed": "over-reference"}, "after a Merge over references destination and source share mutable state: %v", sh)
 	}
 }
